@@ -10,6 +10,7 @@ import (
 	"fmt"
 	"os"
 	"path/filepath"
+	"strings"
 
 	"verif/harness/internal/corr"
 	"verif/harness/internal/fact"
@@ -26,6 +27,13 @@ func main() {
 	}
 	switch os.Args[1] {
 	case "factgen":
+		for i, a := range os.Args[2:] {
+			if (a == "-out" || a == "--out") && i+3 < len(os.Args) {
+				factOutDir = os.Args[i+3]
+			} else if strings.HasPrefix(a, "-out=") || strings.HasPrefix(a, "--out=") {
+				factOutDir = a[strings.Index(a, "=")+1:]
+			}
+		}
 		fact.Main(os.Args[2:], "tslife", "TsLife", genTsLife)
 	case "corr":
 		corr.Main(os.Args[2:], runTsLife)
